@@ -42,7 +42,12 @@ def harnesses(tier):
              unwind=12, unwindset=['label_from_string.0:4', 'label_from_string.1:4'], timeout=900, mem_gb=6, functional=True, pool_off=True,
              bounds='value of %d arbitrary bytes (no line break, no backslash, already trimmed, single inner spaces); line followed by: %s' % (3 if tier == 'quick' else 4, tn.replace('_', ' ')),
              desc='strip_line_tokens_from_metadata + meta_set_value: stored value == source value, whatever follows the line')
-        for t, tn in enumerate(['eof_without_newline', 'newline_then_eof', 'blank_line', 'next_key', 'crlf_then_eof', 'continuation_line'])]
+        for t, tn in enumerate(['eof_without_newline', 'newline_then_eof', 'blank_line', 'next_key', 'crlf_then_eof', 'continuation_line'])] + [
+        dict(name='c11_tokenize_meta_gate', src='c15/toklines.c', defs=dict(SPAN=2), pool_off=True,
+             units=[dict(src='repo:mmd.c', remove=['mmd_assign_line_type']), 'repo:token.c', 'repo:object_pool.c', 'repo:stack.c', 'repo:char.c'],
+             unwind=6, timeout=900, mem_gb=8, functional=True,
+             bounds='range of 0..2 bytes at offset 0..2, any lexer behaviour inside the contract of c15_lexer_spans, any line kinds, all extension words',
+             desc='mmd_tokenize_string: metadata is allowed iff neither compatibility mode nor no-metadata is set; the gate closes after a non-metadata first line')]
 
 CLAIM = dict(
     text='CBMC compares the real value/key normalisation kernels of the metadata path with the documented reference on every string within '
